@@ -1,1 +1,100 @@
-import BigtreeModel.Basic
+import BigtreeModel.Paths
+import BigtreeProofs.Lemmas.PathsStr
+import BigtreeProofs.Lemmas.PathsAddr
+import BigtreeProofs.Lemmas.PathsSet
+import BigtreeProofs.Lemmas.PathsInsert
+import BigtreeProofs.Lemmas.PathsLoop
+/-!
+# C05 — path-based constructors build exactly the prefix closure of the given paths
+
+`Paths.addComps` is `add_path_to_tree` on the component list `branch` (what `path.lstrip(sep)
+.rstrip(sep).split(sep)` yields); `strip_invariant` / `sep_invariant` connect it to the string
+interface `Paths.addPath` for a one-character separator that occurs in no name.
+`SibUnique t` is the `Node` invariant (no two children of a node share a name).
+-/
+open Paths Str
+
+namespace C05
+
+/-- Nothing missing, nothing extra, nothing duplicated: the node paths of the result are the
+    old node paths together with all prefixes of the given path, each exactly once. -/
+theorem paths_insert (treeSep : Str) (t : Tree) (fresh : Nat) (branch : List Str) (attrs : Attrs)
+    (t' : Tree) (ad : Addr) (fr' : Nat) (hs : SibUnique t)
+    (h : addComps treeSep true t fresh branch attrs = .ok (t', ad, fr')) :
+    (∀ q, q ∈ paths t' ↔ q ∈ paths t ∨ q ∈ prefixes branch) ∧ (paths t').Nodup := by
+  obtain ⟨r1, _, _, r4, _⟩ := addComps_dup treeSep t fresh branch attrs t' ad fr' hs h
+  exact ⟨r4, nodup_paths t' r1⟩
+
+/-- Existing nodes are reused, not duplicated: every node that existed before is still at the
+    same address with the same identity, name and path; its attributes are unchanged, except
+    for the addressed node, whose attributes are updated with the given ones. -/
+theorem insert_keeps_ids (treeSep : Str) (t : Tree) (fresh : Nat) (branch : List Str) (attrs : Attrs)
+    (t' : Tree) (ad : Addr) (fr' : Nat) (hs : SibUnique t)
+    (h : addComps treeSep true t fresh branch attrs = .ok (t', ad, fr')) :
+    ∀ b n, nodeAt b t = some n → ∃ n', nodeAt b t' = some n' ∧ n'.id = n.id ∧ n'.name = n.name ∧
+      namesAlong b t' = namesAlong b t ∧ (b ≠ ad → n'.attrs = n.attrs) ∧
+      (b = ad → n'.attrs = updateAttrs n.attrs attrs) :=
+  (addComps_dup treeSep t fresh branch attrs t' ad fr' hs h).2.2.2.2
+
+/-- The node returned for a path is the node at that path. -/
+theorem insert_returns (treeSep : Str) (t : Tree) (fresh : Nat) (branch : List Str) (attrs : Attrs)
+    (t' : Tree) (ad : Addr) (fr' : Nat) (hs : SibUnique t)
+    (h : addComps treeSep true t fresh branch attrs = .ok (t', ad, fr')) :
+    (∃ n, nodeAt ad t' = some n) ∧ namesAlong ad t' = branch := by
+  obtain ⟨_, r2, r3, _, _⟩ := addComps_dup treeSep t fresh branch attrs t' ad fr' hs h
+  exact ⟨r2, r3⟩
+
+/-- non-vacuity: extending `a(b)` by `a/c/d` (fresh ids 10, 11) -/
+example : addComps ['/'] true (.node 0 ['a'] [] [.node 1 ['b'] [] []]) 10 [['a'], ['c'], ['d']] [(['v'], .int 1)]
+    = .ok (.node 0 ['a'] [] [.node 1 ['b'] [] [], .node 10 ['c'] [] [.node 11 ['d'] [(['v'], .int 1)] []]],
+           [1, 0], 12) := by rfl
+
+example : SibUnique (.node 0 ['a'] [] [.node 1 ['b'] [] []]) := by
+  simp [SibUnique, SibUniqueL]
+
+/-- A path with a different root is refused (`TreeError`). -/
+theorem different_root_refused (treeSep : Str) (dupOk : Bool) (t : Tree) (fresh : Nat) (b0 : Str)
+    (rest : List Str) (attrs : Attrs) (h : b0 ≠ t.name) :
+    addComps treeSep dupOk t fresh (b0 :: rest) attrs = .error .tree := by
+  simp [addComps, h]
+
+example : addComps ['/'] true (.node 0 ['a'] [] []) 1 [['b'], ['c']] [] = .error .tree := by rfl
+
+/-- Independence of leading / trailing separators: whatever run of separators leads or trails the
+    path string, the call is the call on the components. -/
+theorem strip_invariant (treeSep : Str) (c : Char) (dupOk : Bool) (t : Tree) (fresh : Nat)
+    (lead trail : Str) (branch : List Str) (attrs : Attrs) (hne : branch ≠ [])
+    (hl : ∀ x ∈ lead, x = c) (ht : ∀ x ∈ trail, x = c) (hfree : ∀ x ∈ branch, x ≠ [] ∧ c ∉ x) :
+    addPath treeSep [c] dupOk t fresh (lead ++ join [c] branch ++ trail) attrs
+      = addComps treeSep dupOk t fresh branch attrs := by
+  have hpath : lead ++ join [c] branch ++ trail ≠ [] := by
+    cases branch with
+    | nil => exact absurd rfl hne
+    | cons a rest =>
+      have ha := (hfree a (by simp)).1
+      intro e
+      have h1 : join [c] (a :: rest) = [] := by
+        have := List.append_eq_nil_iff.mp e
+        exact (List.append_eq_nil_iff.mp this.1).2
+      cases rest with
+      | nil => exact ha (by simpa [join] using h1)
+      | cons b r => simp [join] at h1
+  unfold addPath addComps
+  rw [if_neg hpath, split_strip_join c lead trail branch hne hl ht hfree]
+
+/-- Independence of the separator chosen: spelling the same components with another separator
+    (in the path and in the call) gives the same result. -/
+theorem sep_invariant (treeSep : Str) (c d : Char) (dupOk : Bool) (t : Tree) (fresh : Nat)
+    (branch : List Str) (attrs : Attrs) (hne : branch ≠ [])
+    (hc : ∀ x ∈ branch, x ≠ [] ∧ c ∉ x) (hd : ∀ x ∈ branch, x ≠ [] ∧ d ∉ x) :
+    addPath treeSep [c] dupOk t fresh (join [c] branch) attrs
+      = addPath treeSep [d] dupOk t fresh (join [d] branch) attrs := by
+  have h1 := strip_invariant treeSep c dupOk t fresh [] [] branch attrs hne (by simp) (by simp) hc
+  have h2 := strip_invariant treeSep d dupOk t fresh [] [] branch attrs hne (by simp) (by simp) hd
+  simp only [List.nil_append, List.append_nil] at h1 h2
+  rw [h1, h2]
+
+example : addPath ['/'] ['/'] true (.node 0 ['a'] [] []) 1 "/a/b c/".toList []
+    = addPath ['/'] ['.'] true (.node 0 ['a'] [] []) 1 "a.b c".toList [] := by rfl
+
+end C05
